@@ -82,7 +82,7 @@ func runC18(c *Ctx) {
 		for i := 0; i < 10; i++ {
 			switch rp0.Section {
 			case "lint":
-				runLint(c)
+				runDirected(c, runLint(c), &cases)
 			case "phased":
 				cs, _ := phasedScenario(c, rp0.Seed, rp0.Cfg, rp0.Variant)
 				cases = append(cases, cs...)
@@ -111,7 +111,7 @@ func runC18(c *Ctx) {
 		return
 	}
 
-	runLint(c)
+	ties := runLint(c)
 
 	// phased scenarios: every per-subnet limit in {-1,0,1,2,64} x per-peer limit in {1,2,3,64}
 	nPhased := c.Scale(150, 1500)
@@ -162,6 +162,11 @@ func runC18(c *Ctx) {
 	t3 := time.Now()
 	runShutdown(c, &cases)
 	res.Notes = append(res.Notes, fmt.Sprintf("shutdown: %.1fs", time.Since(t3).Seconds()))
+
+	// the source no longer shows a discipline the model relies on: search harder before saying so
+	if len(ties) > 0 {
+		runDirected(c, ties, &cases)
+	}
 
 	observePeerLimitBelowOne(c)
 
